@@ -736,7 +736,8 @@ class _Smooth(_Algorithm):
                     'half_window values greater than (sections - 1) // 2 have no effect.',
                     ParameterWarning, stacklevel=2
                 )
-            half_win = (sections - 1) // 2
+            # a half window of 0 is not valid for the logspace below
+            half_win = max(1, (sections - 1) // 2)
         # logspace still works when max_iter=1; use ceil rather than using dtype=int
         # in logspace since the int casting will floor the result and cause several half
         # windows of 1
